@@ -8,6 +8,7 @@ CONSTANTS
   MaxLen = 0
   MaxTix = 0
   TLen = 60
+  Ops = {}
   Mode = "forge"
   Versions = {769, 770, 771}
   Suites = {49199, 49200, 52392, 49171, 47, 156}
